@@ -17,6 +17,10 @@ use rml_rtmp::time::RtmpTimestamp;
 use serde_json::json;
 use std::sync::atomic::{AtomicU64, Ordering};
 
+fn thorough_modes() -> bool {
+    std::env::var("VCHECK_C19_TWO_ACTIVITIES").is_ok()
+}
+
 fn must_refuse(kind: &str, v: u64) -> bool {
     if kind.contains("chunk") {
         return v == 0 || v > 0x7FFF_FFFF;
@@ -105,6 +109,7 @@ fn run_cfg_case(kind: &str, v: u64) -> (String, String) {
         }
         "server_chunk" | "client_chunk" | "server_window" | "client_window" | "server_bandwidth" | "client_buffer" | "fms_version_len" | "flash_version_len" | "tc_url_len" | "app_len" | "key_len" => {
             let mut sc = default_scenario(v % 2 == 0);
+            if thorough_modes() { sc.modes = vec![sc.modes[0], !sc.modes[0]]; }
             let mut scfg = ServerSessionConfig::new();
             let mut ccfg = ClientSessionConfig::new();
             match kind {
